@@ -39,4 +39,17 @@
 //	c07.mixed      histories in ONE process: several key objects on five curves, all KDF input and output
 //	               length classes, encryption / decryption / converters / KDF / hash interleaved and played
 //	               back to back, long-lived option objects and caller buffers; every step judged by the reference
+//	c07.der        structured re-encodings of a valid ASN.1 ciphertext with consistent lengths (negated / lifted /
+//	               padded INTEGERs, every length in every long form, extra elements, trailing bytes, other tags,
+//	               element order, indefinite and constructed forms, other widths) on five curves, with C1 random,
+//	               with leading zero octets and with x1 < 2^bits - p (so that x1+p fits the field width), through the
+//	               five decryption entry points, the converters and ParseEnvelopedPrivateKey. Strict accept-set here:
+//	               only the canonical DER encoding of a ciphertext the reference opens may yield a plaintext
+//	               (the pinned library reads strict DER: all of these families are refused)
+//	c07.long       messages of 8160 .. 65700 bytes (thorough: up to 2 MiB): KDF counters beyond 255 / 65535, every
+//	               residue of the block count modulo 8; library ciphertext byte-equal to the reference under the
+//	               scripted k, reference ciphertext decrypted by the library, in every dispatch configuration
+//	c07.buffers    every byte-slice argument of every entry point cut out of an arena with canary-filled spare
+//	               capacity and neighbour bytes: arena unchanged after the call, result unchanged after the caller
+//	               overwrote the arena and after the later calls of the case, key objects unchanged
 package c07
